@@ -13,8 +13,8 @@ build=ok
 (cd v2 && go build ./... 2>&1 | grep -v "main_main\|^#" | grep -q . ) && build=FAIL
 (go build ./... 2>&1 | grep -v "main_main\|^#" | grep -q . ) && build=FAIL
 tests=ok
-t1=$(cd v2 && go test -count=1 ./... 2>&1 | grep -v "internal/tests\|no test files" | grep -c "^FAIL\|^--- FAIL\|panic:")
-t2=$(go test -count=1 ./... 2>&1 | grep -v "internal/tests\|no test files\|/MUTANT/" | grep -c "^FAIL\|^--- FAIL\|panic:")
+t1=$(cd v2 && go test -count=1 ./... 2>&1 | grep -v "internal/tests\|no test files" | grep -c "^FAIL[[:space:]][[:graph:]]\|^--- FAIL\|^panic:")
+t2=$(go test -count=1 ./... 2>&1 | grep -v "internal/tests\|no test files\|/MUTANT/" | grep -c "^FAIL[[:space:]][[:graph:]]\|^--- FAIL\|^panic:")
 [ "$t1" != 0 ] || [ "$t2" != 0 ] && tests="FAIL($t1,$t2)"
 run=$(ls "$d"/demo/run.sh 2>/dev/null)
 with="?"; without="?"
